@@ -398,6 +398,63 @@ let parse_pair (toks : string list) =
     (relaxed = "1", a, opsa, b, opsb)
   | [] -> failwith "pair"
 
+
+(* ---------- schedules (C18) ---------- *)
+let take_n (n : int) (toks : string list) : string list * string list =
+  let rec go k r acc = if k = 0 then (L.rev acc, r) else
+      match r with x :: r' -> go (k - 1) r' (x :: acc) | [] -> failwith "take_n" in
+  go n toks []
+
+let parse_progs (toks : string list) (f : string -> 'a) : 'a list list * string list =
+  match toks with
+  | n :: r ->
+    let rec go k r acc = if k = 0 then (L.rev acc, r) else
+        match r with
+        | m :: r1 -> let (ops, r2) = take_n (int_of_string m) r1 in go (k - 1) r2 (L.map f ops :: acc)
+        | [] -> failwith "progs" in
+    go (int_of_string n) r []
+  | [] -> failwith "progs"
+
+let parse_sched (toks : string list) : coq_N list =
+  match toks with
+  | n :: r -> let (xs, _) = take_n (int_of_string n) r in L.map n_of_string xs
+  | [] -> []
+
+let parse_repls (toks : string list) : Types.repl list * string list =
+  match toks with
+  | n :: r2 ->
+    let rec go k r acc = if k = 0 then (L.rev acc, r) else
+        match r with
+        | st :: en :: c :: nm :: enf :: r' ->
+          go (k - 1) r' ({ Types.r_start = n_of_string st; r_end = n_of_string en; r_content = text_of_hex c;
+                           r_name = opt_of_hex nm; r_enforce = n_of_string enf } :: acc)
+        | _ -> failwith "repl item" in
+    go (int_of_string n) r2 []
+  | [] -> failwith "repls"
+
+let rop_of s = match s with "sorted" -> Conc.RopSorted | "clone" -> Conc.RopClone | _ -> failwith "rop"
+let cop_of s =
+  let k = n_of_string (S.sub s 1 (S.length s - 1)) in
+  match s.[0] with 'm' -> Conc.CopMap k | 's' -> Conc.CopStream k | _ -> failwith "cop"
+
+let nlist_str (l : coq_N list) = if l = [] then "_" else S.concat "," (L.map string_of_n l)
+let nlist_dot (l : coq_N list) = if l = [] then "_" else S.concat "." (L.map string_of_n l)
+let nlist_of_dot (s : string) = if s = "_" then [] else L.map n_of_string (S.split_on_char '.' s)
+
+let hist_str (h : (coq_N * coq_N) list list) : string =
+  if h = [] then "_" else
+    S.concat ";" (L.map (fun snap ->
+        let ks = L.filter_map (fun k ->
+            match L.assoc_opt (n_of_int k) snap with Some id -> Some (Printf.sprintf "%d:%s" k (string_of_n id)) | None -> None)
+            [0; 1; 2; 3] in
+        if ks = [] then "-" else S.concat "." ks) h)
+let hist_of_str (s : string) : (coq_N * coq_N) list list =
+  if s = "_" then [] else
+    L.map (fun snap -> if snap = "-" then [] else
+              L.map (fun kv -> match S.split_on_char ':' kv with
+                  | [k; id] -> (n_of_string k, n_of_string id) | _ -> failwith "hist") (S.split_on_char '.' snap))
+      (S.split_on_char ';' s)
+
 (* ---------- per-kind handlers ---------- *)
 let model_case (toks : string list) : string =
   match toks with
@@ -428,6 +485,43 @@ let model_case (toks : string list) : string =
       (L.length k10)
       (S.concat " " (L.mapi (fun i e -> Printf.sprintf "k%d.e10=%s" i (string_of_events e)) k10))
       (S.concat " " (L.mapi (fun i e -> Printf.sprintf "k%d.e00=%s" i (string_of_events e)) k00))
+  | "jsonv" :: rest ->
+    let (m, _) = parse_smap rest in
+    let (tj, r) = ApiCheck.api_json_value m in
+    Printf.sprintf "tj=%s tw=%s rt=%s rs=%s rr=%s" (hex_of_text tj) (hex_of_text tj)
+      (string_of_optmap r) (string_of_optmap r) (string_of_optmap r)
+  | "jsond" :: h :: _ ->
+    let r = ApiCheck.api_json_doc (text_of_hex h) in
+    let s = match r with Some m -> string_of_smap m | None -> "ERR" in
+    Printf.sprintf "fj=%s fs=%s fr=%s" s s s
+  | "sched" :: "R" :: rest ->
+    let (inner, r1) = parse_src rest in
+    let (rs, r2) = parse_repls r1 in
+    (match r2 with
+     | presort :: r3 ->
+       let (progs, r4) = parse_progs r3 rop_of in
+       let sched = parse_sched r4 in
+       let (ths, (flag, index)) = ApiSched.api_sched_replace inner rs (n_of_string presort) progs sched in
+       S.concat " " (L.mapi (fun i (results, trace) ->
+           S.concat " " ([Printf.sprintf "t%d.n=%d" i (L.length results)]
+                         @ L.mapi (fun j (txt, cl) ->
+                             Printf.sprintf "t%d.r%d=%s" i j
+                               (match cl with
+                                | None -> "T" ^ hex_of_text txt
+                                | Some (f, idx) -> Printf.sprintf "K%s:%s:%s" (b01 f) (nlist_dot idx) (hex_of_text txt))) results
+                         @ [Printf.sprintf "t%d.trace=%s" i (nlist_str trace)])) ths)
+       ^ Printf.sprintf " flag=%s index=%s" (b01 flag) (nlist_dot index)
+     | [] -> failwith "sched R")
+  | "sched" :: "C" :: rest ->
+    let (inner, r1) = parse_src rest in
+    let (progs, r2) = parse_progs r1 cop_of in
+    let sched = parse_sched r2 in
+    let (ths, hist) = ApiSched.api_sched_cached inner progs sched in
+    S.concat " " (L.mapi (fun i (answers, trace) ->
+        S.concat " " ([Printf.sprintf "t%d.n=%d" i (L.length answers)]
+                      @ L.mapi (fun j a -> Printf.sprintf "t%d.r%d=%s" i j (string_of_answer a)) answers
+                      @ [Printf.sprintf "t%d.trace=%s" i (nlist_str trace)])) ths)
+    ^ " hist=" ^ hist_str hist
   | "wr" :: rest ->
     let (s, r1) = parse_src rest in
     (match r1 with
@@ -465,6 +559,18 @@ let panic_verdict (trees : Types.src list) : string =
 let prop_num (prop : string) : coq_N = n_of_int (int_of_string (S.sub prop 1 (S.length prop - 1)))
 
 let check_case (prop : string) (toks : string list) (kvs : (string * string) list) : string =
+  if prop = "C19" then
+    (* unsafe preconditions only: a probe that reported `false`, or a hard abort *)
+    (if L.mem_assoc "UB" kvs then "FAIL clause=unsafe-precondition:" ^ get kvs "UB"
+     else if L.mem_assoc "ABORT" kvs then "FAIL clause=abort"
+     else "OK")
+  else
+  if prop = "C17" && (match toks with ("codec_dec" | "jsond") :: _ -> true | _ -> false) then
+    (* totality only: any answer is fine, a panic / abort / hang is not *)
+    (if has_panic kvs || L.mem_assoc "PANIC" kvs then "FAIL clause=panic"
+     else if L.mem_assoc "ABORT" kvs then "FAIL clause=abort"
+     else if L.mem_assoc "HANG" kvs then "FAIL clause=hang" else "OK")
+  else
   if L.mem_assoc "PANIC" kvs then "FAIL clause=panic"
   else if L.mem_assoc "ABORT" kvs then "FAIL clause=abort"
   else if L.mem_assoc "HANG" kvs then "FAIL clause=hang" else
@@ -497,6 +603,45 @@ let check_case (prop : string) (toks : string list) (kvs : (string * string) lis
     let o = { ApiHist.po_eq = (get kvs "eq" = "1"); po_eqr = (get kvs "eqr" = "1");
               po_a = parse_answers kvs "A" final_ops; po_b = parse_answers kvs "B" final_ops } in
     verdict (ApiCheck.api_check_pair (prop_num prop) a opsa b opsb relaxed o)
+  | "sched" :: "R" :: rest ->
+    let (inner, r1) = parse_src rest in
+    let (rs, r2) = parse_repls r1 in
+    (match r2 with
+     | presort :: r3 ->
+       let (progs, _) = parse_progs r3 rop_of in
+       if has_panic kvs || L.mem_assoc "PANIC" kvs then "FAIL clause=panic" else
+       let results = L.mapi (fun i prog ->
+           let n = int_of_string (get kvs (Printf.sprintf "t%d.n" i)) in
+           if n <> L.length prog then failwith "a thread did not finish its program" else
+           L.init n (fun j ->
+               let v = get kvs (Printf.sprintf "t%d.r%d" i j) in
+               let body = S.sub v 1 (S.length v - 1) in
+               if v.[0] = 'T' then (text_of_hex body, None)
+               else match S.split_on_char ':' body with
+                 | [f; idx; txt] -> (text_of_hex txt, Some (f = "1", nlist_of_dot idx))
+                 | _ -> failwith "clone result")) progs in
+       verdict (ApiSched.chk_C18_replace inner rs (n_of_string presort) results
+                  (get kvs "flag" = "1", nlist_of_dot (get kvs "index")))
+     | [] -> failwith "sched R")
+  | "sched" :: "C" :: rest ->
+    let (inner, r1) = parse_src rest in
+    let (progs, _) = parse_progs r1 cop_of in
+    if has_panic kvs || L.mem_assoc "PANIC" kvs then "FAIL clause=panic" else
+    let answers = L.mapi (fun i prog ->
+        let n = int_of_string (get kvs (Printf.sprintf "t%d.n" i)) in
+        if n <> L.length prog then failwith "a thread did not finish its program" else
+        L.mapi (fun j o -> answer_of_string (ApiSched.key_hop o) (get kvs (Printf.sprintf "t%d.r%d" i j))) prog) progs in
+    verdict (ApiSched.chk_C18_cached inner progs answers (hist_of_str (get kvs "hist")))
+  | "jsonv" :: rest ->
+    let (m, _) = parse_smap rest in
+    let om k = let v = get kvs k in if v = "ERR" then None else optmap_of_string v in
+    if has_panic kvs then "FAIL clause=panic" else
+    verdict (ApiCheck.api_check_json_value m (text_of_hex (get kvs "tj")) (text_of_hex (get kvs "tw"))
+               (om "rt") (om "rs") (om "rr"))
+  | "jsond" :: h :: _ ->
+    let om k = let v = get kvs k in if v = "ERR" then None else optmap_of_string v in
+    if has_panic kvs then "FAIL clause=panic" else
+    verdict (ApiCheck.api_check_json_doc (text_of_hex h) (om "fj") (om "fs") (om "fr"))
   | "comp" :: rest ->
     let (s, _) = parse_src rest in
     if has_panic kvs then panic_verdict [s] else
